@@ -442,10 +442,17 @@ class VM:
             a = self.stack.pop()
             b_num = to_number(b)
             a_num = to_number(a)
-            if b_num == 0:
+            if b_num == 0 or math.isnan(b_num) or math.isnan(a_num) or math.isinf(a_num):
                 self.stack.append(float("nan"))
+            elif math.isinf(b_num):
+                self.stack.append(a_num)
+            elif isinstance(a_num, int) and isinstance(b_num, int) and a_num > 0:
+                self.stack.append(a_num % abs(b_num))
             else:
-                self.stack.append(a_num % b_num)
+                # The result takes the sign of the dividend (fmod), not of
+                # the divisor as Python's % does; fmod is exact.
+                result = math.fmod(a_num, b_num)
+                self.stack.append(math.copysign(0.0, a_num) if result == 0 else result)
 
         elif op == OpCode.POW:
             b = self.stack.pop()
